@@ -470,6 +470,8 @@ Fixpoint seq_outcomes (os : list outcome) : option (option (list node * bool)) :
   | OCrash :: _ => None
   | ONil :: _ => Some None
   | ONode n e :: rest =>
+      if is_none (node_type n) then Some None       (* "array element has no value" / "map value has no value": error, nil *)
+      else
       match seq_outcomes rest with
       | None => None
       | Some None => Some None
@@ -593,6 +595,74 @@ Fixpoint tc (e : expr) : outcome :=
   end.
 
 (* ---------- statement contexts (parser.go) ---------- *)
+(* ---------- parser.go: parseAssignmentTarget ---------- *)
+(* one step of the chain at the level of types: the index expression is
+   represented by its type *)
+Inductive kstep : Set := KIdx (it : ty) | KDot | KSlice | KAssert.
+
+(* the loop body of parseAssignmentTarget for a node of type [t]:
+   Some (Some T): the new node has type T; Some None: error, nil; None: Go panic *)
+Definition target_step (t : ty) (k : kstep) : option (option ty) :=
+  match k with
+  | KIdx it =>
+      if is_string t then Some None                        (* cannot index string on left side of "=" *)
+      else match index_type t it with                      (* parseIndexOrSliceExpr(n, false) *)
+           | Some e => match infer e with Some e' => Some (Some (fixed_type e')) | None => None end
+           | None => if is_generic t then None else Some None
+           end
+  | KDot =>
+      match dot_type t with                                (* parseDotExpr *)
+      | Some e => match infer e with Some e' => Some (Some (fixed_type e')) | None => None end
+      | None => if is_generic t then None else Some None
+      end
+  | KSlice => Some None                                    (* allowSlice = false: "expected ]" or unexpected ":" *)
+  | KAssert => Some None                                   (* parseDotExpr: not a map / "expected map key" *)
+  end.
+
+Fixpoint target_chain (t : ty) (ks : list kstep) : option (option ty) :=
+  match ks with
+  | [] => Some (Some t)
+  | k :: rest => match target_step t k with
+                 | Some (Some t') => target_chain t' rest
+                 | other => other
+                 end
+  end.
+
+(* the chain with its index expressions: (type, error flag) | nil | crash *)
+Inductive toutcome : Set := TNode (t : ty) (err : bool) | TNil | TCrash.
+
+Fixpoint target_outcome (t : ty) (err : bool) (steps : list tstep) : toutcome :=
+  match steps with
+  | [] => TNode t err
+  | TIdx i :: rest =>
+      if is_string t then TNil
+      else if negb (is_array_name t || is_map_name t || is_string t) then TNil
+      else match tc i with
+           | OCrash => TCrash
+           | ONil => TNil
+           | ONode inode ie =>
+               match target_step t (KIdx (node_type inode)) with
+               | Some (Some t') => target_outcome t' (err || ie) rest
+               | Some None => TNil
+               | None => TCrash
+               end
+           end
+  | TDot :: rest =>
+      match target_step t KDot with
+      | Some (Some t') => target_outcome t' err rest
+      | Some None => TNil
+      | None => TCrash
+      end
+  | TSlice s :: _ =>
+      if is_string t then TNil
+      else if negb (is_array_name t || is_map_name t || is_string t) then TNil
+      else match s with
+           | Some x => match tc x with OCrash => TCrash | _ => TNil end
+           | None => TNil
+           end
+  | TAssert _ :: _ => TNil
+  end.
+
 Inductive result : Set :=
 | Accept (static : ty) (shown : ty)   (* static: the type the context ends up with (declared variable / target / loop
                                          variable); shown: the type of the value node as typeof would report it when the
@@ -648,6 +718,18 @@ Definition check (c : ctx) (e : expr) : result :=
       | ONil => Reject
       | ONode n err => if is_bool (node_type n) && negb err then Accept TBool TBool else Reject
       end
+  | CAssignTo root steps =>
+      (* parseAssignmentStatement: the target is parsed first; nil aborts before the value is parsed *)
+      match target_outcome (fixed_type (embed root)) false steps with
+      | TCrash => Crash
+      | TNil => Reject
+      | TNode t terr =>
+          match check_accept t (tc e) with
+          | Accept st sh => if terr then Reject else Accept st sh
+          | other => other
+          end
+      end
+  | CAssignCall _ => Reject        (* "cannot assign to f as it is a function not a variable" *)
   | CRange =>
       match tc e with
       | OCrash => Crash
@@ -778,6 +860,30 @@ Fixpoint dec_expr (x : sx) : option expr :=
   | _ => None
   end.
 
+Definition dec_opt_expr (y : sx) : option (option expr) :=
+  if sym_is y "_" then Some None
+  else match dec_expr y with Some e => Some (Some e) | None => None end.
+
+Definition dec_tstep (x : sx) : option tstep :=
+  match x with
+  | Sym _ => if sym_is x "dot" then Some TDot else None
+  | Lst [k; a] =>
+      if sym_is k "idx" then option_map TIdx (dec_expr a)
+      else if sym_is k "slice" then option_map TSlice (dec_opt_expr a)
+      else if sym_is k "assert" then option_map TAssert (dec_sty a)
+      else None
+  | _ => None
+  end.
+
+Fixpoint dec_tsteps (l : list sx) : option (list tstep) :=
+  match l with
+  | [] => Some []
+  | x :: r => match dec_tstep x, dec_tsteps r with
+              | Some s, Some r' => Some (s :: r')
+              | _, _ => None
+              end
+  end.
+
 Definition dec_ctx (x : sx) : option ctx :=
   match x with
   | Sym _ =>
@@ -789,9 +895,17 @@ Definition dec_ctx (x : sx) : option ctx :=
       | Some t =>
           if sym_is k "assign" then Some (CAssign t) else if sym_is k "param" then Some (CParam t)
           else if sym_is k "variadic" then Some (CVariadic t) else if sym_is k "return" then Some (CReturn t)
+          else if sym_is k "assigncall" then Some (CAssignCall t)
           else None
       | None => None
       end
+  | Lst [k; t; Lst steps] =>
+      if sym_is k "target" then
+        match dec_sty t, dec_tsteps steps with
+        | Some t, Some st => Some (CAssignTo t st)
+        | _, _ => None
+        end
+      else None
   | _ => None
   end.
 
